@@ -74,6 +74,21 @@ def cases(tier, rng, schema, feats):
         vals.append(mutate.nested(16, mutate.random_item(rng, 0, 2), "array"))
         return list(zip(keys, vals))
 
+    # names that are members (or aliases) of SOME map of the specification: in a host that does not define
+    # them they are unknown members like any other (a copied attribute such as alias = "url" would capture them)
+    foreign = sorted({k for d in schema.values() if d["kind"] == "struct" and not d["idx"] for f in d["fields"]
+                      for k in [f["key"]] + list(f["aliases"]) if isinstance(k, str)})
+
+    def foreign_for(tname):
+        d = schema.get(tname)
+        own = {k for f in d["fields"] for k in [f["key"]] + list(f["aliases"])} if d else set()
+        res = []
+        for k in foreign:
+            if k not in own:
+                res.append((k, "some text"))
+                res.append((k, mutate.random_item(rng, 0, 3)))
+        return res
+
     for cmd, (variant, t) in REQUESTS.items():
         if cmd == 0x41:
             continue
@@ -92,6 +107,14 @@ def cases(tier, rng, schema, feats):
             for pos in range(len(tree.pairs) + 1):
                 for k, v in unknown_values():
                     pair("decty", t, tree, mutate.insert_pair(tree, (), pos, k, v))
+        if t in schema:
+            # every foreign member name, with a text and a non-text value, with all and with no optional members
+            for present in ("all", "none"):
+                tree = g.named_wire(t, present=present)
+                for k, v in foreign_for(t):
+                    if any(k == kk for kk, _ in tree.pairs):
+                        continue
+                    pair("decty", t, tree, mutate.insert_pair(tree, (), rng.below(len(tree.pairs) + 1), k, v))
     return out
 
 
